@@ -1029,8 +1029,8 @@ class InterpStmts:
         s2 = ss[0]
         guard = TRUE
         for cond in g.ifs:
-            c, s2 = self.eval1(cond, s2)
-            guard = z3.And(guard, self.truthy(c))
+            gt, = self.under_binder([x], lambda cond=cond: [self.truthy(self.eval1(cond, s2)[0])])
+            guard = z3.And(guard, gt)
         return spec, x, s2, dom, z3.simplify(guard)
 
     def comp_all_any(self, comp, is_all):
@@ -1046,8 +1046,7 @@ class InterpStmts:
                 return TRUE if is_all else FALSE
             return z3.And(*parts) if is_all else z3.Or(*parts)
         spec, x, s2, dom, guard = self.comp_symbolic(e, st)
-        v, _ = self.eval1(e.elt, s2)
-        t = self.truthy(v)
+        t, = self.under_binder([x], lambda: [self.truthy(self.eval1(e.elt, s2)[0])])
         if is_all:
             return z3.ForAll([x], z3.Implies(z3.And(dom, guard), t))
         return z3.Exists([x], z3.And(dom, guard, t))
@@ -1064,10 +1063,20 @@ class InterpStmts:
                 vals.append(v)
             return self.make_set(vals) if vals else set()
         spec, x, s2, dom, guard = self.comp_symbolic(e, st)
-        v, _ = self.eval1(e.elt, s2)
-        if type(v).__name__ == "UPair":
-            return self.lib["comp_set:upair"].fn(self, x, dom, guard, v)
-        v = self.tup_to_sv(v)
+        box_ = {}
+
+        def ev():
+            v0, _ = self.eval1(e.elt, s2)
+            if type(v0).__name__ == "UPair":
+                box_["upair"] = v0
+                return []
+            v0 = self.tup_to_sv(v0)
+            box_["kind"] = v0.kind
+            return [v0.tree]
+        out = self.under_binder([x], ev)
+        if "upair" in box_:
+            return self.lib["comp_set:upair"].fn(self, x, dom, guard, box_["upair"])
+        v = SV(box_["kind"], out[0])
         ek = v.kind
         res = z3.Const(core.fresh_name("setc"), z3.ArraySort(keysort(ek), core.B))
         key = to_key(ek, v.tree)
@@ -1095,8 +1104,16 @@ class InterpStmts:
         spec, x, s2, dom, guard = self.comp_symbolic(e, st)
         if spec.mode != "seq":
             raise Unsupported("list comprehension over an unordered collection")
-        v, _ = self.eval1(e.elt, s2)
-        v = self.tup_to_sv(v)
+        box_ = {}
+
+        def ev():
+            v0 = self.tup_to_sv(self.eval1(e.elt, s2)[0])
+            if v0.kind.tag == "list":
+                v0 = SV(v0.kind, v0.tree)
+            box_["kind"] = v0.kind
+            return [v0.tree]
+        out = self.under_binder([x], ev)
+        v = SV(box_["kind"], out[0])
         k = LIST(v.kind)
         res = tfresh(k, "listc")
         if z3.is_true(guard):
@@ -1129,9 +1146,15 @@ class InterpStmts:
         # single symbolic generator
         fake = ast.GeneratorExp(elt=ast.Tuple(elts=[e.key, e.value], ctx=ast.Load()), generators=e.generators)
         spec, x, s2, dom, guard = self.comp_symbolic(fake, st)
-        kv, _ = self.eval1(e.key, s2)
-        vv, _ = self.eval1(e.value, s2)
-        kv, vv = self.tup_to_sv(kv), self.tup_to_sv(vv)
+        box_ = {}
+
+        def ev():
+            a = self.tup_to_sv(self.eval1(e.key, s2)[0])
+            b = self.tup_to_sv(self.eval1(e.value, s2)[0])
+            box_["k"] = (a.kind, b.kind)
+            return [a.tree, b.tree]
+        out = self.under_binder([x], ev)
+        kv, vv = SV(box_["k"][0], out[0]), SV(box_["k"][1], out[1])
         kind = DICT(kv.kind, vv.kind)
         res = tfresh(kind, "dictc")
         key = to_key(kv.kind, kv.tree)
@@ -1340,6 +1363,10 @@ class InterpStmts:
         return v
 
     def call_lambda(self, st, f, args, kwargs):
+        syn = getattr(self, "_synthetic_frames", {})
+        if f.frame in syn and f.frame not in st.frames:
+            st = st.copy()
+            st.frames[f.frame] = syn[f.frame]
         vals = self.bind_params(st, f, args, kwargs, node=f.node)
         s2, fid = st.push_frame(f.frame, f.mod)
         for k, v in vals.items():
